@@ -289,6 +289,16 @@ func (s *Solvers) dischargeOne(o *Obligation) {
 		o.Status = "refuted"
 		o.Model = parseValues(r.out)
 		o.Output = r.out
+		// prefer a small model for replay
+		if len(o.vc.smallHints) > 0 && !o.MustFail {
+			o.small = true
+			rs, _ := s.runWith(o.Name, o.vc.script(o, ""), s.timeout, 1)
+			o.small = false
+			if rs.status == "sat" {
+				o.Model = parseValues(rs.out)
+				o.Output = rs.out
+			}
+		}
 	default:
 		// one retry with 4x timeout
 		r2, all2 := s.runWith(o.Name, script, s.timeout*4, 1)
